@@ -48,6 +48,8 @@ func vfC21Weight(f *zoekt.FileMatch) int {
 	return n
 }
 
+var vfC21SymCancelOracleOnly int
+
 func TestVerifC21(t *testing.T) {
 	r := vfNewRand(vfSeed() + 7919)
 	n := vfN(300)
@@ -206,6 +208,14 @@ func TestVerifC21(t *testing.T) {
 					vfOracleFail(bad, "a limit or cancellation changed more than the set of whole files", replay(map[string]any{"limited": plain, "unlimited": uplain}))
 				}
 				// ---- correspondence record
+				// Cancellation is compared by ITERATION index; C01's model represents the docIterator a symbol node
+				// borrows from its wrapped tree by "every document" (sound for the result, C01_docit_lower_bound), so the
+				// number of iterations before a given document is not the implementation's for queries with symbol
+				// atoms: such cancellation cases are judged by the oracle above only (counted in the info record).
+				if cancelAfter >= 0 && strings.Contains(q.String(), "sym:") {
+					vfC21SymCancelOracleOnly++
+					continue
+				}
 				rows, _ := vfC01Rows(d, docs, lim.Files)
 				smax := opts.ShardMaxMatchCount
 				if smax == 0 {
@@ -240,4 +250,5 @@ func TestVerifC21(t *testing.T) {
 			}
 		}
 	}
+	vfInfo(map[string]any{"cancel_cases_with_symbol_atoms_judged_by_the_oracle_only": vfC21SymCancelOracleOnly})
 }
